@@ -85,9 +85,12 @@ def conventions(repo, rep):
 def bbox_bounds(repo, rep):
     fi = repo.func(f"{SEL}.sel_bbox")
     lo, hi, tol = set(), set(), None
+    axis_of = {}
     for n in ast.walk(fi.node):
         if isinstance(n, ast.Assign) and isinstance(n.targets[0], ast.Name) and isinstance(n.value, ast.BinOp):
             v = n.value
+            if isinstance(v.left, ast.Call) and v.left.args:
+                axis_of[n.targets[0].id] = "lon" if "lon" in unparse(v.left.args[0]) else "lat"
             if isinstance(v.left, ast.Call) and call_name(v.left) in ("min", "np.min") and isinstance(v.op, ast.Sub):
                 lo.add(n.targets[0].id)
                 rep.ok("R-C14-2", f"{fi.file}:{n.lineno} sel_bbox", unparse(n), "lower bound = smallest query value minus the tolerance")
@@ -107,7 +110,10 @@ def bbox_bounds(repo, rep):
             n_cmp += 1
             op = type(n.ops[0])
             coord = "lon" if "lon" in unparse(n.left) else "lat"
-            if ("lon" in b) != (coord == "lon"):
+            wrapped = any(isinstance(i_, ast.If) and "_is_360" in unparse(i_.test) and any(n is x for o in i_.orelse for x in ast.walk(o)) for i_ in ast.walk(fi.node))
+            opn = {ast.GtE: ">=", ast.Gt: ">", ast.LtE: "<=", ast.Lt: "<"}.get(op, op.__name__)
+            anchor = f"sel_bbox:{'wrapped' if wrapped else 'plain'}:{coord}{opn}{'upper' if b in hi else 'lower'}"
+            if (axis_of.get(b) == "lon") != (coord == "lon"):
                 rep.fail("R-C14-2", fi.file, n.lineno, fi.qualname, unparse(n), f"a {coord} coordinate is compared with a bound of the other axis")
             elif (b in lo and op in (ast.GtE, ast.Gt)) or (b in hi and op in (ast.LtE, ast.Lt)):
                 rep.ok("R-C14-2", f"{fi.file}:{n.lineno} sel_bbox", unparse(n), "lower bound used as lower bound" if b in lo else "upper bound used as upper bound")
@@ -115,7 +121,7 @@ def bbox_bounds(repo, rep):
                 rep.fail("R-C14-2", fi.file, n.lineno, fi.qualname, unparse(n),
                          f"'{b}' is the {'upper' if b in hi else 'lower'} edge of the (tolerance-widened) box but is used as a "
                          f"{'lower' if b in hi else 'upper'} bound: this selects the complement of the box along that axis and the "
-                         "tolerance shrinks instead of widening it")
+                         "tolerance shrinks instead of widening it", anchor=anchor)
     rep.floor("R-C14-2", "box comparisons in sel_bbox", n_cmp, 8)
 
 
@@ -128,11 +134,11 @@ def epilogues(repo, rep):
         kws = {k.arg: unparse(k.value) for k in ctor[0].keywords}
         pos = [unparse(a) for a in ctor[0].args]
         want = {"lons": "lons", "lats": "lats", "dset_lons": "dset_lons", "dset_lats": "dset_lats"}
-        if pos[:1] == ["dset"] and all(kws.get(k) == v for k, v in want.items()):
+        if pos[:1] == [fi.params[0]] and all(kws.get(k) == v for k, v in want.items()):
             rep.ok("R-C14-3", f"{fi.file}:{ctor[0].lineno} {name}", unparse(ctor[0])[:100], "same five arguments in every selector")
         else:
             rep.fail("R-C14-3", fi.file, ctor[0].lineno, fi.qualname, unparse(ctor[0])[:120], "selectors must build Coordinates from (dset, lons, lats, dset_lons, dset_lats)")
-        conv = [n for n in ast.walk(fi.node) if isinstance(n, ast.If) and unparse(n.test).replace(" ", "") in ("coords.consistentisFalse", "notcoords.consistent")]
+        conv = [n for n in ast.walk(fi.node) if isinstance(n, ast.If) and (unparse(n.test).replace(" ", "").endswith(".consistentisFalse") or (unparse(n.test).startswith("not ") and unparse(n.test).endswith(".consistent")))]
         okc = False
         for c in conv:
             for s in c.body:
@@ -178,47 +184,72 @@ def idw(repo, rep):
     fi = repo.func(f"{SEL}.sel_idw")
     t = unparse(fi.node)
     # factor 1/dist and the zero-distance short cut
-    inner = [n for n in ast.walk(fi.node) if isinstance(n, ast.For) and isinstance(n.iter, ast.Call) and call_name(n.iter) == "zip" and "closest" in unparse(n.iter)]
+    inner = [n for n in ast.walk(fi.node) if isinstance(n, ast.For) and isinstance(n.iter, ast.Call) and call_name(n.iter) == "zip"
+             and isinstance(n.target, ast.Tuple) and len(n.target.elts) == 2 and any(isinstance(x, ast.Break) for x in ast.walk(n))]
+    inner = [n for n in inner if not any(m is not n and m in inner for m in ast.walk(n))]
     if not inner:
         raise AnalysisError("sel_idw: neighbour collection loop not found")
     loop = inner[0]
-    dist = loop.target.elts[1].id if isinstance(loop.target, ast.Tuple) else None
-    zero = [n for n in loop.body if isinstance(n, ast.If) and unparse(n.test).replace(" ", "") == f"{dist}==0"]
+    ind, dist = (e.id for e in loop.target.elts)
+
+    def appended(stmts, pred):
+        for s_ in stmts:
+            if isinstance(s_, ast.Expr) and isinstance(s_.value, ast.Call) and isinstance(s_.value.func, ast.Attribute) and s_.value.func.attr == "append" \
+                    and len(s_.value.args) == 1 and pred(s_.value.args[0]):
+                return unparse(s_.value.func.value)
+        return None
+    I = appended(loop.body, lambda e: unparse(e) == ind)
+    F = appended(loop.body, lambda e: isinstance(e, ast.BinOp) and isinstance(e.op, ast.Div) and repo.const(fi.module, e.left) in (1, 1.0) and unparse(e.right) == dist)
+    zero = [n for n in loop.body if isinstance(n, ast.If) and unparse(n.test).replace(" ", "") in (f"{dist}==0", f"{dist}==0.0", f"0=={dist}")]
     okz = False
-    if zero:
+    if zero and F:
         b = zero[0].body
-        okz = any(isinstance(s, ast.Expr) and "append(1.0)" in unparse(s) for s in b) and isinstance(b[-1], ast.Break)
+        okz = appended(b, lambda e: repo.const(fi.module, e) in (1, 1.0)) == F and isinstance(b[-1], ast.Break)
     if okz:
         rep.ok("R-C14-4", f"{fi.file}:{zero[0].lineno} sel_idw", "if dist == 0: factors.append(1.0); break", "a station at zero distance is returned alone with weight 1")
     else:
         rep.fail("R-C14-4", fi.file, loop.lineno, fi.qualname, "zero-distance case", "a query point exactly on a station must short-circuit to that station with factor 1 (otherwise 1/0)")
-    inv = [n for n in ast.walk(loop) if isinstance(n, ast.BinOp) and isinstance(n.op, ast.Div) and repo.const(fi.module, n.left) in (1, 1.0) and unparse(n.right) == dist]
-    if inv:
-        rep.ok("R-C14-4", f"{fi.file}:{inv[0].lineno} sel_idw", f"factors.append(1.0 / {dist})", "weights proportional to 1/distance")
+    if F:
+        rep.ok("R-C14-4", f"{fi.file}:{loop.lineno} sel_idw", f"{F}.append(1.0 / {dist})", "weights proportional to 1/distance")
     else:
         rep.fail("R-C14-4", fi.file, loop.lineno, fi.qualname, "neighbour factors", "each neighbour's factor must be 1/distance")
-    # the masking condition
-    masks = [n for n in ast.walk(fi.node) if isinstance(n, ast.If) and any(isinstance(s, ast.Expr) and "append(mask)" in unparse(s) for s in n.body)]
+    if not I:
+        raise AnalysisError("sel_idw: neighbour index list not found")
+    # the masking condition: the If that follows the collection loop and tests len(I)
+    masks = [n for n in ast.walk(fi.node) if isinstance(n, ast.If) and n.lineno > loop.lineno and f"len({I})" in unparse(n.test) and n.orelse
+             and any(isinstance(x, (ast.For, ast.AugAssign)) for o in n.orelse for x in ast.walk(o))]
     if len(masks) != 1:
         raise AnalysisError("sel_idw: masking branch not found")
     cond = masks[0].test
     ct = unparse(cond).replace(" ", "")
-    has_empty = "len(indices)==0" in ct or "notindices" in ct
-    has_single = ("len(indices)==1" in ct) and (f"{dist}>0" in ct or f"{dist}!=0" in ct)
+    has_empty = f"len({I})==0" in ct or f"not{I}" in ct
+    has_single = (f"len({I})==1" in ct) and (f"{dist}>0" in ct or f"{dist}!=0" in ct)
     if has_empty and has_single and isinstance(cond, ast.BoolOp) and isinstance(cond.op, ast.Or):
         rep.ok("R-C14-4", f"{fi.file}:{masks[0].lineno} sel_idw", unparse(cond), "missing iff no neighbour, or a single neighbour that is not the query point itself")
     else:
         rep.fail("R-C14-4", fi.file, masks[0].lineno, fi.qualname, "if " + unparse(cond),
                  "the result is missing when fewer than two stations are in range EXCEPT when the single station is at zero distance "
-                 "(then it is returned exactly); this condition loses that case or masks too little")
-    # normalisation
-    if "sumfac = float(1.0 / sum(factors))" in t and "weighted *= sumfac" in t:
-        n = [x for x in ast.walk(fi.node) if isinstance(x, ast.If) and any(isinstance(b, ast.AugAssign) and unparse(b) == "weighted *= sumfac" for b in x.body)]
-        g = unparse(n[0].test).replace(" ", "") if n else ""
-        if g == "len(indices)>0":
-            rep.ok("R-C14-4", f"{fi.file}:{n[0].lineno} sel_idw", "weighted *= 1/sum(factors) when more than one term", "convex combination")
+                 "(then it is returned exactly); this condition loses that case or masks too little", anchor="sel_idw:mask-condition")
+    # normalisation: S = float(1.0 / sum(F)); W *= S guarded by len(I) > 0 (I has been popped once by then)
+    S = None
+    for a_ in ast.walk(masks[0]):
+        if isinstance(a_, ast.Assign) and isinstance(a_.targets[0], ast.Name):
+            v = a_.value
+            while isinstance(v, ast.Call) and call_name(v) == "float" and v.args:
+                v = v.args[0]
+            if isinstance(v, ast.BinOp) and isinstance(v.op, ast.Div) and repo.const(fi.module, v.left) in (1, 1.0) and unparse(v.right).replace(" ", "") == f"sum({F})":
+                S = a_.targets[0].id
+    scal = [(x, b_) for x in ast.walk(masks[0]) if isinstance(x, ast.If) for b_ in x.body
+            if isinstance(b_, ast.AugAssign) and isinstance(b_.op, ast.Mult) and S and unparse(b_.value) == S]
+    unguarded = [b_ for o in masks[0].orelse for b_ in ([o] if isinstance(o, ast.AugAssign) else [])
+                 if isinstance(b_.op, ast.Mult) and S and unparse(b_.value) == S]
+    if S and (scal or unguarded):
+        g = unparse(scal[0][0].test).replace(" ", "") if scal else "True"
+        if g in (f"len({I})>0", f"len({I})>=1", f"{I}", "True"):
+            rep.ok("R-C14-4", f"{fi.file}:{masks[0].lineno} sel_idw", "weighted *= 1/sum(factors) when more than one term", "convex combination")
         else:
-            rep.fail("R-C14-4", fi.file, fi.node.lineno, fi.qualname, f"normalisation guard '{g}'", "the weighted sum must be normalised by 1/sum(factors) whenever more than one station contributes")
+            rep.fail("R-C14-4", fi.file, fi.node.lineno, fi.qualname, f"normalisation guard '{g}'", "the weighted sum must be normalised by 1/sum(factors) whenever more than one station contributes",
+                     anchor="sel_idw:normalisation-guard")
     else:
         rep.fail("R-C14-4", fi.file, fi.node.lineno, fi.qualname, "normalisation", "weights must be normalised by the sum of the factors")
 
